@@ -85,21 +85,36 @@ pub fn guarded_main(f: impl FnOnce() + std::panic::UnwindSafe) {
     }
 }
 
-pub fn read_ndjson(path: &str) -> Vec<Value> {
-    let f = std::fs::File::open(path).unwrap_or_else(|e| tool_error(&format!("open {path}: {e}")));
-    let mut out = Vec::new();
-    for line in BufReader::new(f).lines() {
-        let line = line.unwrap();
-        let line = line.trim();
-        if line.is_empty() {
-            continue;
-        }
-        match serde_json::from_str::<Value>(line) {
-            Ok(v) => out.push(v),
-            Err(e) => tool_error(&format!("bad json in {path}: {e}: {line}")),
+/// The cases of an ndjson file, parsed one line at a time (the thorough tier's files run to
+/// gigabytes: holding them as a Vec<Value> took 34 GB and the OOM killer).
+pub struct NdCases {
+    lines: std::io::Lines<BufReader<std::fs::File>>,
+    path: String,
+    n: u64,
+}
+impl Iterator for NdCases {
+    type Item = Value;
+    fn next(&mut self) -> Option<Value> {
+        loop {
+            let line = match self.lines.next()? {
+                Ok(l) => l,
+                Err(e) => tool_error(&format!("read {}: {e}", self.path)),
+            };
+            self.n += 1;
+            let line = line.trim();
+            if line.is_empty() {
+                continue;
+            }
+            match serde_json::from_str::<Value>(line) {
+                Ok(v) => return Some(v),
+                Err(e) => tool_error(&format!("{} line {}: {e}", self.path, self.n)),
+            }
         }
     }
-    out
+}
+pub fn read_ndjson(path: &str) -> NdCases {
+    let f = std::fs::File::open(path).unwrap_or_else(|e| tool_error(&format!("open {path}: {e}")));
+    NdCases { lines: BufReader::new(f).lines(), path: path.to_string(), n: 0 }
 }
 
 pub struct NdWriter(std::io::BufWriter<std::fs::File>);
